@@ -969,6 +969,17 @@ func (e *SpecEnv) call(x *spec.Call) Val {
 		if id, isID := sel.X.(*spec.Ident); !isID || e.lookupObj(id.Name+"."+sel.Name) == nil || e.isValueName(id.Name) {
 			recv := e.compile(sel.X)
 			if recv.T != nil {
+				if n, isNamed := types.Unalias(recv.T).(*types.Named); isNamed && n.Obj().Pkg() != nil {
+					if _, isIface := n.Underlying().(*types.Interface); isIface {
+						key := shortPath(n.Obj().Pkg().Path()) + ":" + n.Obj().Name() + "." + sel.Name
+						if !strings.HasPrefix(n.Obj().Pkg().Path(), RepoModule) {
+							key = n.Obj().Pkg().Path() + "." + n.Obj().Name() + "." + sel.Name
+						}
+						if sp, ok := vc.W.Specs[key]; ok && sp.Pure {
+							return e.callIfacePure(x, key, n, sel.Name, recv, e.compileArgs(x.Args))
+						}
+					}
+				}
 				if m := e.lookupMethod(recv.T, sel.Name); m != nil {
 					return e.callPureVals(x, m, append([]Val{recv}, e.compileArgs(x.Args)...))
 				}
@@ -1351,4 +1362,30 @@ func (e *SpecEnv) compileLoc(x spec.Expr) (*Loc, types.Type) {
 	e.fail(x, "unsupported modifies target")
 	_ = vc
 	return nil, nil
+}
+
+
+// callIfacePure applies a pure interface method inside a specification (same symbol as applyIfaceContract uses).
+func (e *SpecEnv) callIfacePure(x *spec.Call, key string, n *types.Named, method string, recv Val, args []Val) Val {
+	vc := e.vc
+	iface := n.Underlying().(*types.Interface)
+	var sig *types.Signature
+	for i := 0; i < iface.NumMethods(); i++ {
+		if iface.Method(i).Name() == method {
+			sig = iface.Method(i).Type().(*types.Signature)
+		}
+	}
+	if sig == nil || sig.Results().Len() != 1 {
+		return e.fail(x, "interface method %s must have exactly one result to be used in a contract", method)
+	}
+	all := append([]Val{recv}, args...)
+	var sorts, terms []string
+	for _, a := range all {
+		sorts = append(sorts, e.sortOf(a))
+		terms = append(terms, e.termOf(a))
+	}
+	rt := sig.Results().At(0).Type()
+	name := "pure_" + sanitize(key)
+	vc.declareFun(name, sorts, vc.S.Sort(rt))
+	return Val{T: rt, Term: "(" + name + " " + strings.Join(terms, " ") + ")"}
 }
